@@ -218,6 +218,24 @@ def run(res, tier):
                 except OSError:
                     pass
 
+    # (b3) a record stored as 64-bit floats (another build, another tool): the values loaded are the stored values (they are single-precision numbers here)
+    for n in ns:
+        f64 = os.path.join(wd, "f64_%d.h5" % n)
+        vals = blob(n)
+        pl.write_start_h5_f64(f64, n, vals)
+        a = base(n, "none") + ["-i", f64, "-T", 0.125, "-n", 1, "--SavePhaseSpace", 1, "--RenormalizeCharge", -1]
+        r = pl.run(exe, a, wd, out="f64_%d_out.h5" % n)
+        case = "start file with 64-bit floats, n=%d" % n
+        d = pl.h5(r["h5"]) if r["rc"] == 0 and os.path.exists(r["h5"]) else None
+        res.eval(case, pl.chash(case, r["rc"]), trivial=False)
+        if d is None or "error" in d:
+            res.violate("C11/f64-start-file/run-failed", case, "rc=%s %s" % (r["rc"], r["log"][-200:]), replay=dict(cmd=r["cmd"]))
+        else:
+            got, _h = last_ps(d, 0)
+            want = [struct.unpack("f", struct.pack("f", x))[0] for x in vals]
+            if len(got) != len(want) or any(struct.pack("f", g) != struct.pack("f", w) for g, w in zip(got, want)):
+                res.violate("C11/f64-start-file/loaded-state-differs", case, "the first record of the run is not the stored record", replay=dict(cmd=r["cmd"]))
+
     # (c) files that cannot be used as a start must be refused with a message, nothing simulated
     good = os.path.join(wd, "good.h5")
     pl.run(exe, base(16, "none") + ["-T", 0.25, "-n", 1, "--SavePhaseSpace", 1], wd, out="good.h5")
